@@ -248,4 +248,270 @@ theorem dim_inj (d : Dim) (hv : d.Valid) (t y t' y' : Nat) (sg sg' : Seg) (k k' 
   rw [hs] at hs'; cases hs'
   exact ⟨rfl, rfl, by omega⟩
 
+/-! ## two dimensions: `CORE_redistribute_update` is the product of two one-dimensional chains -/
+
+def pairSeg : Option Seg → Option Seg → Option Rect
+  | some a, some b => some ⟨a.len, b.len, a.src, b.src, a.dst, b.dst⟩
+  | _, _ => none
+
+def mkRect (a b : Seg) : Rect := ⟨a.len, b.len, a.src, b.src, a.dst, b.dst⟩
+
+/-- a 3 × 3 nested `if / else if` chain is the pairing of two 3-chains (conditions are opaque here) -/
+theorem chain_pair {A1 A2 A3 B1 B2 B3 : Prop} [Decidable A1] [Decidable A2] [Decidable A3]
+    [Decidable B1] [Decidable B2] [Decidable B3] (a1 a2 a3 b1 b2 b3 : Seg) :
+    (if A1 then
+        (if B1 then some (mkRect a1 b1) else if B2 then some (mkRect a1 b2) else if B3 then some (mkRect a1 b3) else none)
+      else if A2 then
+        (if B1 then some (mkRect a2 b1) else if B2 then some (mkRect a2 b2) else if B3 then some (mkRect a2 b3) else none)
+      else if A3 then
+        (if B1 then some (mkRect a3 b1) else if B2 then some (mkRect a3 b2) else if B3 then some (mkRect a3 b3) else none)
+      else none) =
+    pairSeg (if A1 then some a1 else if A2 then some a2 else if A3 then some a3 else none)
+            (if B1 then some b1 else if B2 then some b2 else if B3 then some b3 else none) := by
+  by_cases h1 : A1 <;> by_cases h2 : A2 <;> by_cases h3 : A3 <;>
+  by_cases k1 : B1 <;> by_cases k2 : B2 <;> by_cases k3 : B3 <;>
+  simp only [h1, h2, h3, k1, k2, k3, ↓reduceIte, pairSeg, mkRect]
+
+theorem coreUpdate_eq (r c : View) : coreUpdate r c = pairSeg r.seg c.seg := by
+  unfold coreUpdate View.seg seg1
+  exact chain_pair ⟨r.tl, r.istart, r.off⟩ ⟨r.bY, 0, r.off + r.tl + (r.y - r.ys - 1) * r.bY⟩
+    ⟨r.br, 0, r.off + r.tl + (r.ye - r.ys - 1) * r.bY⟩ ⟨c.tl, c.istart, c.off⟩
+    ⟨c.bY, 0, c.off + c.tl + (c.y - c.ys - 1) * c.bY⟩ ⟨c.br, 0, c.off + c.tl + (c.ye - c.ys - 1) * c.bY⟩
+
+def stripDst (x : Rect) : Rect := ⟨x.rows, x.cols, x.sI, x.sJ, 0, 0⟩
+
+theorem chain_send {A1 A2 A3 B1 B2 B3 : Prop} [Decidable A1] [Decidable A2] [Decidable A3]
+    [Decidable B1] [Decidable B2] [Decidable B3] (hB : ¬ (B2 ∧ B3)) (x11 x12 x13 x21 x22 x23 x31 x32 x33 : Rect) :
+    (if A1 then
+        (if B1 then some (stripDst x11) else if B2 then some (stripDst x12) else if B3 then some (stripDst x13) else none)
+      else if A2 then
+        (if B1 then some (stripDst x21) else if B3 then some (stripDst x23) else none)
+      else if A3 then
+        (if B1 then some (stripDst x31) else if B2 then some (stripDst x32) else if B3 then some (stripDst x33) else none)
+      else none : Option Rect).orElse (fun _ => if A2 ∧ B2 then some (stripDst x22) else none) =
+    (if A1 then
+        (if B1 then some x11 else if B2 then some x12 else if B3 then some x13 else none)
+      else if A2 then
+        (if B1 then some x21 else if B2 then some x22 else if B3 then some x23 else none)
+      else if A3 then
+        (if B1 then some x31 else if B2 then some x32 else if B3 then some x33 else none)
+      else none : Option Rect).map stripDst := by
+  by_cases h1 : A1 <;> by_cases h2 : A2 <;> by_cases h3 : A3 <;>
+  by_cases k1 : B1 <;> by_cases k2 : B2 <;> by_cases k3 : B3 <;>
+  first
+    | (exfalso; exact hB ⟨k2, k3⟩)
+    | simp only [h1, h2, h3, k1, k2, k3, ↓reduceIte, and_self, and_true, and_false,
+        Option.orElse, Option.map]
+
+/-- what the sender packs (`CORE_redistribute_send`, or the `INNER` datatype for the inner block) has the
+    shape and source offsets of the block `CORE_redistribute_update` expects -/
+theorem coreSend_eq (r c : View) :
+    (coreSend r c).orElse (fun _ => packInner r c) = (coreUpdate r c).map stripDst := by
+  unfold coreSend packInner coreUpdate
+  refine chain_send (A1 := r.y = r.ys) (A2 := r.y > r.ys ∧ r.y < r.ye) (A3 := r.y = r.ye ∧ r.ys ≠ r.ye)
+    (B1 := c.y = c.ys) (B2 := c.y > c.ys ∧ c.y < c.ye) (B3 := c.y = c.ye ∧ c.ys ≠ c.ye) ?_
+    ⟨r.tl, c.tl, r.istart, c.istart, r.off, c.off⟩
+    ⟨r.tl, c.bY, r.istart, 0, r.off, c.off + c.tl + (c.y - c.ys - 1) * c.bY⟩
+    ⟨r.tl, c.br, r.istart, 0, r.off, c.off + c.tl + (c.ye - c.ys - 1) * c.bY⟩
+    ⟨r.bY, c.tl, 0, c.istart, r.off + r.tl + (r.y - r.ys - 1) * r.bY, c.off⟩
+    ⟨r.bY, c.bY, 0, 0, r.off + r.tl + (r.y - r.ys - 1) * r.bY, c.off + c.tl + (c.y - c.ys - 1) * c.bY⟩
+    ⟨r.bY, c.br, 0, 0, r.off + r.tl + (r.y - r.ys - 1) * r.bY, c.off + c.tl + (c.ye - c.ys - 1) * c.bY⟩
+    ⟨r.br, c.tl, 0, c.istart, r.off + r.tl + (r.ye - r.ys - 1) * r.bY, c.off⟩
+    ⟨r.br, c.bY, 0, 0, r.off + r.tl + (r.ye - r.ys - 1) * r.bY, c.off + c.tl + (c.y - c.ys - 1) * c.bY⟩
+    ⟨r.br, c.br, 0, 0, r.off + r.tl + (r.ye - r.ys - 1) * r.bY, c.off + c.tl + (c.ye - c.ys - 1) * c.bY⟩
+  omega
+
+/-! ## lists -/
+
+theorem mem_rangeIncl {x lo hi : Nat} : x ∈ rangeIncl lo hi ↔ lo ≤ x ∧ x ≤ hi := by
+  unfold rangeIncl
+  simp only [List.mem_map, List.mem_range]
+  constructor
+  · rintro ⟨a, h, rfl⟩; omega
+  · intro h; exact ⟨x - lo, by omega, by omega⟩
+
+theorem flatMap_congr' {α β : Type} {l : List α} {f g : α → List β} (h : ∀ a ∈ l, f a = g a) :
+    l.flatMap f = l.flatMap g := by
+  induction l with
+  | nil => rfl
+  | cons x xs ih =>
+    simp only [List.flatMap_cons]
+    rw [h x (List.mem_cons_self ..), ih (fun a ha => h a (List.mem_cons_of_mem _ ha))]
+
+theorem filterMap_eq_map_of {α β : Type} {l : List α} {f : α → Option β} {g : α → β}
+    (h : ∀ a ∈ l, f a = some (g a)) : l.filterMap f = l.map g := by
+  induction l with
+  | nil => rfl
+  | cons x xs ih =>
+    rw [List.filterMap_cons, h x (List.mem_cons_self ..)]
+    simp only [List.map_cons]
+    rw [ih (fun a ha => h a (List.mem_cons_of_mem _ ha))]
+
+theorem mem_rectCopies {p : Params} {k : Task} {r : Rect} {c : ECopy} :
+    c ∈ rectCopies p k r ↔ ∃ a b, a < r.rows ∧ b < r.cols ∧
+      c = ⟨p.mbT * k.mT + r.dI + a, p.nbT * k.nT + r.dJ + b, p.mbY * k.mY + r.sI + a, p.nbY * k.nY + r.sJ + b⟩ := by
+  unfold rectCopies
+  simp only [List.mem_flatMap, List.mem_map, List.mem_range]
+  constructor
+  · rintro ⟨b, hb, a, ha, rfl⟩; exact ⟨a, b, ha, hb, rfl⟩
+  · rintro ⟨a, b, ha, hb, rfl⟩; exact ⟨b, hb, a, ha, rfl⟩
+
+/-- Packing into a buffer with leading dimension = number of rows and reading it back with the same shape
+    is the direct block copy. -/
+theorem viaBuffer_eq (p : Params) (k : Task) (snd rcv : Rect) (h1 : snd.rows = rcv.rows) (h2 : snd.cols = rcv.cols)
+    (h3 : rcv.sI = 0) (h4 : rcv.sJ = 0) :
+    viaBuffer p k snd rcv = rectCopies p k ⟨rcv.rows, rcv.cols, snd.sI, snd.sJ, rcv.dI, rcv.dJ⟩ := by
+  unfold viaBuffer rectCopies
+  apply flatMap_congr'
+  intro b hb
+  apply filterMap_eq_map_of
+  intro a ha
+  rw [List.mem_range] at hb ha
+  have hlin : (rcv.sJ + b) * rcv.rows + rcv.sI + a = rcv.rows * b + a := by
+    rw [h3, h4, Nat.zero_add, Nat.add_zero, Nat.mul_comm]
+  have hd : (rcv.rows * b + a) / rcv.rows = b := div_unique rfl ha
+  have hm : (rcv.rows * b + a) % rcv.rows = a := by rw [mod_eq_sub, hd]; omega
+  have hr : ¬ rcv.rows = 0 := by omega
+  simp only [hlin, bufSrc, h1, h2, hd, hm, hr, ha, hb, ↓reduceIte, and_self, Option.map, Nat.add_assoc]
+
+/-! ## the general path -/
+
+structure Params.Valid (p : Params) : Prop where
+  row : p.row.Valid
+  col : p.col.Valid
+  numCol : 0 < p.numCol
+
+/-- `c` copies window element `(i,j)`: target `(disi_T+i, disj_T+j)` ← source `(disi_Y+i, disj_Y+j)` -/
+def IsWindowCopy (p : Params) (c : ECopy) : Prop :=
+  ∃ i j, i < p.sizeRow ∧ j < p.sizeCol ∧ c = ⟨p.diT + i, p.djT + j, p.diY + i, p.djY + j⟩
+
+/-- membership in the task space of `Update` -/
+def InGeneral (p : Params) (k : Task) : Prop :=
+  k.batch ≤ p.nt ∧ (p.row.tStart ≤ k.mT ∧ k.mT ≤ p.row.tEnd) ∧
+  (p.batchLo k.batch ≤ k.nT ∧ k.nT ≤ p.batchHi k.batch) ∧
+  (p.row.yStart k.mT ≤ k.mY ∧ k.mY ≤ p.row.yEnd k.mT) ∧ (p.col.yStart k.nT ≤ k.nY ∧ k.nY ≤ p.col.yEnd k.nT)
+
+theorem mem_generalTasks {p : Params} {k : Task} : k ∈ generalTasks p ↔ InGeneral p k := by
+  unfold generalTasks InGeneral
+  simp only [List.mem_flatMap, List.mem_map, mem_rangeIncl]
+  constructor
+  · rintro ⟨b, hb, mT, hmT, nT, hnT, mY, hmY, nY, hnY, rfl⟩
+    exact ⟨hb.2, hmT, hnT, hmY, hnY⟩
+  · rintro ⟨h1, h2, h3, h4, h5⟩
+    exact ⟨k.batch, ⟨Nat.zero_le _, h1⟩, k.mT, h2, k.nT, h3, k.mY, h4, k.nY, h5, by cases k; rfl⟩
+
+/-- the batches cut `n_T_START .. n_T_END` into consecutive runs of `num_col` -/
+theorem batch_range (p : Params) (b nT : Nat) (h1 : p.batchLo b ≤ nT) (h2 : nT ≤ p.batchHi b) :
+    p.col.tStart ≤ nT ∧ nT ≤ p.col.tEnd := by
+  unfold Params.batchLo at h1; unfold Params.batchHi at h2; omega
+
+theorem batch_cover (p : Params) (hn : 0 < p.numCol) (nT : Nat) (h1 : p.col.tStart ≤ nT) (h2 : nT ≤ p.col.tEnd) :
+    ∃ b, b ≤ p.nt ∧ p.batchLo b ≤ nT ∧ nT ≤ p.batchHi b := by
+  refine ⟨(nT - p.col.tStart) / p.numCol, Nat.div_le_div_right (by omega), ?_, ?_⟩
+  · unfold Params.batchLo
+    have := div_lo p.numCol (nT - p.col.tStart)
+    rw [Nat.mul_comm]; omega
+  · unfold Params.batchHi
+    have := div_hi p.numCol (nT - p.col.tStart) hn
+    rw [Nat.mul_comm, Nat.mul_succ]; omega
+
+theorem batch_unique (p : Params) (b b' nT : Nat) (h1 : p.batchLo b ≤ nT) (h2 : nT ≤ p.batchHi b)
+    (h1' : p.batchLo b' ≤ nT) (h2' : nT ≤ p.batchHi b') (hn : 0 < p.numCol) : b = b' := by
+  unfold Params.batchLo at h1 h1'; unfold Params.batchHi at h2 h2'
+  rw [Nat.mul_comm, Nat.mul_succ] at h2 h2'
+  rw [Nat.mul_comm] at h1 h1'
+  rcases Nat.lt_trichotomy b b' with h | h | h
+  · have := mul_lt_step (b := p.numCol) h; omega
+  · exact h
+  · have := mul_lt_step (b := p.numCol) h; omega
+
+/-- Soundness and memory safety of one `Update` instance (source and target tile on the same rank). -/
+theorem general_task_sound (p : Params) (hv : p.Valid) (k : Task) (hk : InGeneral p k) :
+    ∃ r, updateRect p k = some r ∧ (∀ c ∈ rectCopies p k r, IsWindowCopy p c) ∧
+      r.dI + r.rows ≤ p.mbT ∧ r.dJ + r.cols ≤ p.nbT ∧ r.sI + r.rows ≤ p.mbY ∧ r.sJ + r.cols ≤ p.nbY ∧
+      1 ≤ r.rows ∧ 1 ≤ r.cols := by
+  obtain ⟨_, ⟨m1, m2⟩, ⟨n1, n2⟩, ⟨y1, y2⟩, ⟨z1, z2⟩⟩ := hk
+  obtain ⟨n1', n2'⟩ := batch_range p _ _ n1 n2
+  obtain ⟨sa, ea, wa, qa1, qa2, qa3, qa4, qa5, qa6⟩ := dim_sound p.row hv.row k.mT k.mY m1 m2 y1 y2
+  obtain ⟨sb, eb, wb, qb1, qb2, qb3, qb4, qb5, qb6⟩ := dim_sound p.col hv.col k.nT k.nY n1' n2' z1 z2
+  have qa1' : p.mbT * k.mT + sa.dst = p.diT + wa := qa1
+  have qa2' : p.mbY * k.mY + sa.src = p.diY + wa := qa2
+  have qa3' : wa + sa.len ≤ p.sizeRow := qa3
+  have qb1' : p.nbT * k.nT + sb.dst = p.djT + wb := qb1
+  have qb2' : p.nbY * k.nY + sb.src = p.djY + wb := qb2
+  have qb3' : wb + sb.len ≤ p.sizeCol := qb3
+  refine ⟨⟨sa.len, sb.len, sa.src, sb.src, sa.dst, sb.dst⟩, ?_, ?_, qa4, qb4, qa5, qb5, qa6, qb6⟩
+  · unfold updateRect; rw [coreUpdate_eq, ea, eb]; rfl
+  · intro c hc
+    obtain ⟨a, b, ha, hb, rfl⟩ := mem_rectCopies.mp hc
+    refine ⟨wa + a, wb + b, by simp only at ha; omega, by simp only at hb; omega, ?_⟩
+    simp only [ECopy.mk.injEq]; omega
+
+/-- Completeness: every window element is copied by some `Update` instance of the task space. -/
+theorem general_complete (p : Params) (hv : p.Valid) (i j : Nat) (hi : i < p.sizeRow) (hj : j < p.sizeCol) :
+    ∃ k, InGeneral p k ∧ ∃ r, updateRect p k = some r ∧
+      (⟨p.diT + i, p.djT + j, p.diY + i, p.djY + j⟩ : ECopy) ∈ rectCopies p k r := by
+  obtain ⟨mT, mY, sa, a, m1, m2, y1, y2, ea, ha, qa1, qa2⟩ := dim_complete p.row hv.row i hi
+  obtain ⟨nT, nY, sb, b, n1, n2, z1, z2, eb, hb, qb1, qb2⟩ := dim_complete p.col hv.col j hj
+  obtain ⟨bt, hb1, hb2, hb3⟩ := batch_cover p hv.numCol nT n1 n2
+  have qa1' : p.mbT * mT + sa.dst + a = p.diT + i := qa1
+  have qa2' : p.mbY * mY + sa.src + a = p.diY + i := qa2
+  have qb1' : p.nbT * nT + sb.dst + b = p.djT + j := qb1
+  have qb2' : p.nbY * nY + sb.src + b = p.djY + j := qb2
+  refine ⟨⟨bt, mT, nT, mY, nY⟩, ⟨hb1, ⟨m1, m2⟩, ⟨hb2, hb3⟩, ⟨y1, y2⟩, ⟨z1, z2⟩⟩,
+    ⟨sa.len, sb.len, sa.src, sb.src, sa.dst, sb.dst⟩, ?_, ?_⟩
+  · unfold updateRect; rw [coreUpdate_eq, ea, eb]; rfl
+  · refine mem_rectCopies.mpr ⟨a, b, ha, hb, ?_⟩
+    simp only [ECopy.mk.injEq]; omega
+
+/-- Exactly once: two element copies of the task space that write the same target element are the same
+    copy of the same task instance (concurrent `Update`s of one target tile write disjoint elements). -/
+theorem general_disjoint (p : Params) (hv : p.Valid) (k k' : Task) (hk : InGeneral p k) (hk' : InGeneral p k')
+    (r r' : Rect) (hr : updateRect p k = some r) (hr' : updateRect p k' = some r')
+    (c c' : ECopy) (hc : c ∈ rectCopies p k r) (hc' : c' ∈ rectCopies p k' r')
+    (hi : c.ti = c'.ti) (hj : c.tj = c'.tj) : k = k' ∧ c = c' := by
+  obtain ⟨_, ⟨m1, m2⟩, ⟨n1, n2⟩, ⟨y1, y2⟩, ⟨z1, z2⟩⟩ := hk
+  obtain ⟨_, ⟨m1', m2'⟩, ⟨n1', n2'⟩, ⟨y1', y2'⟩, ⟨z1', z2'⟩⟩ := hk'
+  obtain ⟨u1, u2⟩ := batch_range p _ _ n1 n2
+  obtain ⟨u1', u2'⟩ := batch_range p _ _ n1' n2'
+  obtain ⟨sa, ea, _⟩ := dim_sound p.row hv.row k.mT k.mY m1 m2 y1 y2
+  obtain ⟨sb, eb, _⟩ := dim_sound p.col hv.col k.nT k.nY u1 u2 z1 z2
+  obtain ⟨sa', ea', _⟩ := dim_sound p.row hv.row k'.mT k'.mY m1' m2' y1' y2'
+  obtain ⟨sb', eb', _⟩ := dim_sound p.col hv.col k'.nT k'.nY u1' u2' z1' z2'
+  unfold updateRect at hr hr'
+  rw [coreUpdate_eq, ea, eb] at hr
+  rw [coreUpdate_eq, ea', eb'] at hr'
+  cases hr; cases hr'
+  obtain ⟨a, b, ha, hb, rfl⟩ := mem_rectCopies.mp hc
+  obtain ⟨a', b', ha', hb', rfl⟩ := mem_rectCopies.mp hc'
+  simp only at hi hj ha hb ha' hb'
+  obtain ⟨e1, e2, e3⟩ := dim_inj p.row hv.row k.mT k.mY k'.mT k'.mY sa sa' a a' m1 m2 y1 y2 m1' m2' y1' y2' ea ea' ha ha' hi
+  obtain ⟨f1, f2, f3⟩ := dim_inj p.col hv.col k.nT k.nY k'.nT k'.nY sb sb' b b' u1 u2 z1 z2 u1' u2' z1' z2' eb eb' hb hb' hj
+  have hbatch : k.batch = k'.batch := by
+    rw [f1] at n1 n2; exact batch_unique p _ _ _ n1 n2 n1' n2' hv.numCol
+  have hkk : k = k' := by
+    cases k; cases k'; simp only at e1 e2 f1 f2 hbatch; subst e1 e2 f1 f2 hbatch; rfl
+  subst hkk
+  rw [ea] at ea'; rw [eb] at eb'; cases ea'; cases eb'
+  subst e3 f3
+  exact ⟨rfl, rfl⟩
+
+/-- The two-stage remote path (pack at the sender, unpack at the receiver) issues the same element
+    copies as the in-place path, for every `Update` instance of the task space. -/
+theorem updateCopies_remote (p : Params) (hv : p.Valid) (remote : Task → Bool) (k : Task) (hk : InGeneral p k) :
+    updateCopies p remote k = updateCopies p (fun _ => false) k := by
+  obtain ⟨r, hr, _⟩ := general_task_sound p hv k hk
+  unfold updateRect at hr
+  unfold updateCopies
+  cases hrem : remote k
+  · rfl
+  · simp only [coreUpdateRemote, coreSend_eq, hr, Option.map, ↓reduceIte, Bool.false_eq_true]
+    exact viaBuffer_eq p k _ _ rfl rfl rfl rfl
+
+theorem updateCopies_local (p : Params) (k : Task) (r : Rect) (hr : updateRect p k = some r) :
+    updateCopies p (fun _ => false) k = rectCopies p k r := by
+  unfold updateRect at hr
+  unfold updateCopies
+  simp only [hr, Bool.false_eq_true, ↓reduceIte]
+
 end ParsecVerif.Redistribute
